@@ -127,6 +127,7 @@ type peer struct {
 	nextTok  uint32
 	seq      uint32
 	respond  bool // answer MSG requests with a ReadResponse
+	sameTok  bool // every renewal is answered with the same token id (as the gopcua server does)
 	done     chan struct{}
 }
 
@@ -146,7 +147,9 @@ func startPeer(conn *uacp.Conn, lifetime uint32, respond bool) *peer {
 			switch {
 			case c.Type == "OPN":
 				p.mu.Lock()
-				p.nextTok++
+				if !p.sameTok {
+					p.nextTok++
+				}
 				tok := p.nextTok
 				p.issued[c.ReqID] = tok
 				p.opnTimes = append(p.opnTimes, time.Now())
@@ -276,6 +279,57 @@ func (e *env) storm() {
 		e.r.Hit("live:renewed-in-window")
 	default:
 		e.r.Notes = append(e.r.Notes, fmt.Sprintf("%s: renewal observed after %v (timer due at 750 ms; machine slow?)", s.name, gap))
+	}
+}
+
+// liveExpiry: a 1000 ms lifetime, the peer re-uses the token id for every renewal (as the gopcua server
+// does); one request after the other for 2.8 s, across two or three renewals and the expiry of the first
+// tokens (at 125 % of their lifetime). Every request has to complete.
+func (e *env) liveExpiry() {
+	s := e.open("live-renewals-and-expiry", 10, 1000, true)
+	if s == nil {
+		return
+	}
+	s.p.mu.Lock()
+	s.p.sameTok = true
+	s.p.mu.Unlock()
+	var panicked atomic.Value
+	if err := renewRecover(s.sc, &panicked); err != nil {
+		e.r.InfraError = s.name + ": first renewal failed: " + err.Error()
+		s.stop()
+		return
+	}
+	t0 := time.Now()
+	n, failed := 0, ""
+	for time.Since(t0) < 2800*time.Millisecond && failed == "" {
+		err := s.sc.SendRequestWithTimeout(context.Background(), req(n), nil, 5*time.Second, func(v ua.Response) error {
+			if _, ok := v.(*ua.ReadResponse); !ok {
+				return fmt.Errorf("got %T", v)
+			}
+			return nil
+		})
+		if err != nil {
+			failed = fmt.Sprintf("request #%d, issued %v after the first token was installed, failed: %v", n, time.Since(t0).Round(time.Millisecond), err)
+		}
+		n++
+		time.Sleep(5 * time.Millisecond)
+	}
+	s.p.mu.Lock()
+	opn := len(s.p.opnTimes)
+	s.p.mu.Unlock()
+	s.stop()
+	quiesce()
+	e.r.Count(s.name, true)
+	e.r.Hit("scenario:live-renewals-and-expiry")
+	e.r.Sample(fmt.Sprintf("%s: %d requests, %d OPN requests in %v", s.name, n, opn, time.Since(t0).Round(time.Millisecond)))
+	switch {
+	case failed != "":
+		// oracle: requests issued at any moment around a renewal complete normally
+		e.r.Fail(s.name, "", failed)
+	case opn < 3:
+		e.r.Notes = append(e.r.Notes, fmt.Sprintf("%s: only %d renewals in 2.8 s (machine slow?)", s.name, opn-1))
+	default:
+		e.r.Hit("live:requests-survive-renewals-and-expiry")
 	}
 }
 
@@ -784,6 +838,8 @@ func main() {
 			if life := time.Duration(l) * time.Millisecond; !(2*when >= life && when < life) {
 				r.Fail(o.Replay, "", fmt.Sprintf("lifetime %v: renewal scheduled after %v", life, when))
 			}
+		} else if strings.HasPrefix(o.Replay, "live-renewals") {
+			e.liveExpiry()
 		} else if strings.HasPrefix(o.Replay, "live-lifetime") {
 			e.storm()
 		} else if strings.HasPrefix(o.Replay, "server-rekey") {
@@ -811,9 +867,12 @@ func main() {
 		e.rekeyForced()
 	}
 	if r.InfraError == "" {
+		e.liveExpiry()
+	}
+	if r.InfraError == "" {
 		e.storm() // last: its renewal goroutines may outlive the scenario for a moment
 	}
-	for _, b := range []string{"delay:in-window", "scenario:live-1000ms", "live:renewed-in-window", "scenario:around-renewal", "outcome:all-requests-completed",
+	for _, b := range []string{"delay:in-window", "scenario:live-1000ms", "live:renewed-in-window", "live:requests-survive-renewals-and-expiry", "scenario:around-renewal", "outcome:all-requests-completed",
 		"label:rLock", "label:rInstall", "label:write", "guard:inside", "guard:outside", "scenario:waitgroup-race"} {
 		if r.Distribution[b] == 0 {
 			r.Unreached = append(r.Unreached, b)
